@@ -138,6 +138,11 @@ func cmdCheck(args []string) int {
 		fr := &FuncResult{Key: k, Exec: ex}
 		fr.Err = ex.run()
 		fr.Paths = ex.paths
+		if con.Flags["slow"] {
+			for _, ps := range ex.paths {
+				ps.Slow = true
+			}
+		}
 		results = append(results, fr)
 		allPaths = append(allPaths, ex.paths...)
 	}
